@@ -15,3 +15,6 @@ import SpoxModel.Props.C15
 #print axioms C15.adapt_initializers_nil
 #print axioms C15.adapter_value_blind
 #print axioms C15.generated_value_readers_modelled
+#print axioms C15.construct_raises_iff
+#print axioms C15.step_total
+#print axioms C15.history_total
